@@ -142,76 +142,138 @@ async def _idle(loop):
     return False
 
 
-def _snapshot(t, log):
+def fut_value(tid, k):
+    """result of the k-th hand-made future of task `tid` (the driver uses the same formula)"""
+    return 10 * (tid + 1) + k
+
+
+def _snapshot(t, log, spawns):
     pp = t._param__private
     o = {'vals': [getattr(t, n) for n in NAMES],
          'async': sorted(NAMES.index(k) for k in pp.async_refs),
          'sync': sorted(NAMES.index(k) for k in pp.syncing),
          'refs': sorted(NAMES.index(k) for k in pp.refs),
-         'log': [list(x) for x in log]}
+         'log': [list(x) for x in log],
+         'spawns': [list(x) for x in spawns]}
     del log[:]
+    del spawns[:]
     for v in o['vals']:
         if not isinstance(v, int) or isinstance(v, bool):
             raise RuntimeError(f'non-integer value {v!r}')
     return o
 
 
+_SRC = None
+
+
+def _src_cls():
+    global _SRC
+    if _SRC is None:
+        import param
+        _SRC = type('Src', (param.Parameterized,), {'x': param.Integer(default=0)})
+    return _SRC
+
+
 async def _drive_param(case, loop):
     import asyncio
+    import contextvars
+    import param
+    import param.parameterized as pz
     t = _cls()()
-    log = []
+    src = _src_cls()()
+    log, spawns = [], []
 
     def cb(*events):
         for e in events:
             log.append((NAMES.index(e.name), e.new))
     t.param.watch(cb, NAMES, onlychanged=False)
-    futs, table = {}, []
-    for e in case['events']:
-        if e['e'] == 'assign' and e['src'] != 'plain':
-            table.append(e['v'])
+    hook = case.get('hook')
+    if hook:
+        a, b, w = hook
+        t.param.watch(lambda e: setattr(t, NAMES[b], w), [NAMES[a]], onlychanged=False)
+    futs = {}
 
     def fut(tid, k):
         if (tid, k) not in futs:
             futs[(tid, k)] = loop.create_future()
         return futs[(tid, k)]
+    # every `_async_ref` goes through `async_executor`: number the tasks in the order they are
+    # scheduled (= task ids of the model) and let the coroutine bodies know which task runs them
+    cur = contextvars.ContextVar('c10_task')
+    ref_ids = {}                       # id(reference function) -> id of its first task
+    keep = []
+    orig = pz.async_executor
+    counter = [0]
 
-    def coro_fn(tid):
+    def executor(func):
+        args = getattr(func, 'args', ())
+        if getattr(getattr(func, 'func', None), '__name__', '') != '_async_ref':
+            return orig(func)
+        tid = counter[0]
+        counter[0] += 1
+        ref = args[2] if len(args) > 2 else None
+        keep.append(ref)
+        rid = ref_ids.setdefault(id(ref), tid) if ref is not None else tid
+        spawns.append((tid, NAMES.index(args[0]), rid))
+
+        async def tagged():
+            cur.set(tid)
+            return await func()
+        return orig(tagged)
+
+    def coro_fn(dep):
+        if dep:
+            async def f(x):
+                return await fut(cur.get(), 0)
+            return param.bind(f, src.param.x)
+
         async def f():
-            return await fut(tid, 0)
+            return await fut(cur.get(), 0)
         return f
 
-    def agen_fn(tid, n):
+    def agen_fn(n, dep):
+        if dep:
+            async def g(x):
+                tid = cur.get()
+                for k in range(n):
+                    yield await fut(tid, k)
+            return param.bind(g, src.param.x)
+
         async def g():
+            tid = cur.get()
             for k in range(n):
                 yield await fut(tid, k)
         return g
-    # `cfg`: which variant of the anchored code is installed (read from the source, see _facts);
-    # the driver replays the schedule on the model of that variant
-    out = {'cfg': facts(), 'init': _snapshot(t, log), 'steps': []}
-    ntasks = 0
-    for e in case['events']:
-        kind = e['e']
-        if kind == 'assign':
-            name = NAMES[e['p']]
-            if e['src'] == 'coro':
-                setattr(t, name, coro_fn(ntasks))
-                ntasks += 1
-            elif e['src'] == 'agen':
-                setattr(t, name, agen_fn(ntasks, len(e['v'])))
-                ntasks += 1
+    pz.async_executor = executor
+    try:
+        # `cfg`: which variant of the anchored code is installed (read from the source, see _facts);
+        # the driver replays the schedule on the model of that variant
+        out = {'cfg': facts(), 'init': _snapshot(t, log, spawns), 'steps': []}
+        for e in case['events']:
+            kind = e['e']
+            if kind == 'assign':
+                name = NAMES[e['p']]
+                if e['src'] == 'coro':
+                    setattr(t, name, coro_fn(e.get('dep', False)))
+                elif e['src'] == 'agen':
+                    setattr(t, name, agen_fn(len(e['v']), e.get('dep', False)))
+                else:
+                    setattr(t, name, e['v'][0])
+            elif kind == 'tick':
+                if not await _idle(loop):
+                    return {'crash': 'the loop did not become idle within 64 iterations'}
+            elif kind == 'complete':
+                f = fut(e['t'], e['k'])
+                if not f.done():
+                    f.set_result(fut_value(e['t'], e['k']))
+            elif kind == 'bump':
+                src.x += 1
             else:
-                setattr(t, name, e['v'][0])
-        elif kind == 'tick':
-            if not await _idle(loop):
-                return {'crash': 'the loop did not become idle within 64 iterations'}
-        elif kind == 'complete':
-            f = fut(e['t'], e['k'])
-            if not f.done():
-                f.set_result(table[e['t']][e['k']])
-        else:
-            raise RuntimeError(kind)
-        out['steps'].append(_snapshot(t, log))
-    return out
+                raise RuntimeError(kind)
+            out['steps'].append(_snapshot(t, log, spawns))
+        return out
+    finally:
+        pz.async_executor = orig
 
 
 async def _drive_rx(case, loop):
